@@ -3,6 +3,7 @@
   For every positive MaxFileSize (the policy field the handlers load per request, so set at construction or at
   runtime alike) and every offset, count and size.
 -/
+import Absnfs.BytesSpec
 import Absnfs.ServerLimits
 import Gen.Facts
 open Absnfs Absnfs.Server
@@ -62,5 +63,20 @@ theorem no_limit_no_refusal (c : Cfg) (size : Nat) (h : c.maxFileSize ≤ 0) : e
     path as without it. -/
 theorem within_limit_no_refusal (c : Cfg) (size : Nat) (h : (size : Int) ≤ c.maxFileSize) : exceedsMax c size = false :=
   (exceedsMax_false_iff c size).mpr (.inr h)
+
+/-- History level (byte model): under a limit, whatever WRITE / SETATTR(size) operations arrive — accepted, or
+    refused with the file unchanged, as the handlers do (theorems above) — a file that is within the limit stays
+    within it after every history, of any length -/
+theorem file_never_exceeds_limit (lim : Nat) (d : Bytes) (ops : List Fs.FileOp) (hd : d.length ≤ lim) :
+    (ops.foldl (Fs.guardedOp lim) d).length ≤ lim := Fs.guarded_run_length_le lim d ops hd
+
+/-- and a history in which no request ends beyond the limit leaves exactly the bytes of the unlimited server
+    (the lock-step twin of the harness) -/
+theorem limit_invisible_within (lim : Nat) (d : Bytes) (ops : List Fs.FileOp) (h : ∀ op ∈ ops, op.endsAt ≤ lim) :
+    ops.foldl (Fs.guardedOp lim) d = ops.foldl Fs.applyFileOp d := Fs.guarded_run_eq_unguarded lim d ops h
+
+/-- non-vacuity: limit 4; the write ending at 5 and the extension to 9 are refused, the rest applied -/
+example : [Fs.FileOp.write 0 [1, 2], .write 3 [7, 7], .trunc 9, .write 2 [5, 6]].foldl (Fs.guardedOp 4) [] = [1, 2, 5, 6] := by
+  decide
 
 end Props.C25
